@@ -115,6 +115,20 @@ def facts(src, strip_comments, fn_body):
                         x["readsData"] = True
                         changed = True
                         break
+    # a function that only delegates (no access to `data` of its own) is lazily checked iff everything it delegates to is
+    changed = True
+    while changed:
+        changed = False
+        by = {x["name"]: x for x in res["fns"]}
+        for x in res["fns"]:
+            body = bodies.get(x["name"], "")
+            if x["testsExpiry"] or ".data." in body:
+                continue
+            callees = [by[c] for c in re.findall(r"\bself\.(\w+)\(", body) if c in by and by[c]["readsData"]]
+            if callees and all(c["testsExpiry"] for c in callees):
+                x["testsExpiry"] = True
+                x["reaps"] = all(c["reaps"] for c in callees)
+                changed = True
     if not any(f["name"] == "get" and f["testsExpiry"] and f["reaps"] for f in res["fns"]):
         errors.append("`get` no longer tests and removes an expired entry (the anchor of the lazy-expiry heuristics)")
     # sweeper
